@@ -25,7 +25,7 @@ ASSUMPTIONS = ['the documentation tables of the tree under test are the specific
                'propagate_fft refusing tilt-carrying wavefronts (NotImplementedError) is C09\'s rule, not a table entry']
 EXHAUSTIVE = True
 PLAN = {'quick': {'gen': 8}, 'thorough': {'gen': 16, 'tests': 1}}
-REQUIRED_BUCKETS = ['start:none', 'start:pupil', 'start:image', 'len:1', 'len:2', 'len:3', 'random-long',
+REQUIRED_BUCKETS = ['form:scalar', 'form:disjoint', 'start:none', 'start:pupil', 'start:image', 'len:1', 'len:2', 'len:3', 'random-long',
                     'cell:allowed', 'cell:refused', 'propagate:allowed', 'propagate:refused']
 REQUIRED_ANCHORS = ['anchor:_can_mul_ptype', 'anchor:_mul_result_ptype', 'anchor:_propagate_ptype', 'anchor:Image.multiply',
                     'anchor:PType.__eq__']
@@ -85,9 +85,17 @@ def parse_docs():
 DX, Z, WL, DU = 1e-3, 2.0, 6e-7, 2e-4
 
 
-def make_plane(lentil, name, w):
+def make_plane(lentil, name, w, form='array'):
+    """form 'array': 4x4 amplitude; 'scalar': no array data at all (amplitude 1, OPD 0, no pixel scale);
+    'left'/'right': arrays supported on disjoint halves (two of them in a row leave a field-less wavefront)."""
     ps = None if w.pixelscale is not None else DX
     a = np.ones((4, 4))
+    if form == 'scalar':
+        a, ps = 1, None
+    elif form == 'left':
+        a = np.zeros((4, 4)); a[:, :2] = 1
+    elif form == 'right':
+        a = np.zeros((4, 4)); a[:, 2:] = 1
     if name.startswith('ptype:'):
         return lentil.Plane(amplitude=a, pixelscale=ps, ptype=getattr(lentil, name.split(':')[1]))
     if name == 'Plane':
@@ -121,10 +129,11 @@ def start_wavefront(lentil, start):
     return w
 
 
-def run_program(ctx, lentil, start, prog, traces):
+def run_program(ctx, lentil, start, prog, traces, forms=None):
     w = start_wavefront(lentil, start)
     trace = []
-    for sym in prog:
+    for k, sym in enumerate(prog):
+        form = forms[k] if forms else 'array'
         before = str(w.ptype)
         has_tilt = any(f.tilt for f in w.data)
         if sym in PROPS:
@@ -149,7 +158,7 @@ def run_program(ctx, lentil, start, prog, traces):
                     break
         else:
             try:
-                plane = make_plane(lentil, sym, w)
+                plane = make_plane(lentil, sym, w, form)
             except Exception as e:
                 trace.append((before, sym, 'construct-raise:' + type(e).__name__, {'msg': str(e)[:120]}))
                 break
@@ -181,6 +190,29 @@ def workload(ctx, lentil):
                     continue
                 ctx.case({'start': start, 'prog': list(prog)}, [f'start:{start}', f'len:{L}'])
                 run_program(ctx, lentil, start, prog, traces)
+                if L <= 3:
+                    # the same program with planes that carry no array data at all (scalar attributes, no pixel scale)
+                    ctx.case({'start': start, 'prog': list(prog), 'form': 'scalar'}, ['form:scalar'])
+                    run_program(ctx, lentil, start, prog, traces, forms=['scalar'] * L)
+    # programs that empty the wavefront (two apertures with disjoint support) before propagating
+    mini = ['Pupil', 'Image', 'Tilt', 'propagate_dft', 'propagate_fft']
+    k = 0
+    for start in ('none', 'pupil', 'image'):
+        for L in range(2, 5):
+            for prog in itertools.product(mini, repeat=L):
+                k += 1
+                if k % ctx.nshards != ctx.shard or 'Pupil' not in prog[:2] and 'Image' not in prog[:2]:
+                    continue
+                forms = []
+                side = 'left'
+                for sym in prog:
+                    if sym in ('Pupil', 'Image'):
+                        forms.append(side)
+                        side = 'right' if side == 'left' else 'left'
+                    else:
+                        forms.append('array')
+                ctx.case({'start': start, 'prog': list(prog), 'form': 'disjoint'}, ['form:disjoint'])
+                run_program(ctx, lentil, start, prog, traces, forms=forms)
     nrand = 150 if ctx.tier == 'quick' else 1500
     for i in range(nrand):
         start = ['none', 'pupil', 'image'][int(rng.integers(0, 3))]
